@@ -497,6 +497,9 @@ def asciiRealM (declared : Nat) : Codec Nat where
   size _ := declared
   ok n := (doubleParts n).isSome ∧ (asciiRealField n).length = 24 ∧ parseFloatText (asciiRealField n) = some n
 
+instance (declared : Nat) : DecidablePred (asciiRealM declared).ok := fun n => by
+  unfold asciiRealM; exact inferInstance
+
 /-- the Ascii record classes have no `rwLong` (AttributeError): no value is in its domain -/
 def asciiLong : Codec Int where
   enc _ := []
